@@ -420,6 +420,23 @@ def nonascii_flag_family(seed, n, maxlen=3, budget=3000):
     return out
 
 
+def dupcmd_family(seed, n, maxlen=2, budget=2500):
+    """two subcommands of one level carry the same name (the first one listed is the one that runs) but different
+    descriptions: both are listed by help"""
+    out = []
+    for i in range(n):
+        a = level([sw("ca", "-x")], NOTAIL)
+        b = level([sw("cb", "-y")], postail(pos("cp", "opt")))
+        c1, c2 = cmd("run", a), cmd("run", b)
+        c1["help"], c2["help"] = f"HELP-cmd-run-first{i}", f"HELP-cmd-run-second{i}"
+        cmds = [c1, c2] + ([cmd("other", level([], NOTAIL))] if i % 2 else [])
+        d = mkdef(f"dupcmd{seed}_{i}", level([sw("t0", "-v")] if i % 3 else [], cmdtail(cmds, optional=bool(i % 2))), maxlen=maxlen,
+                  extras=("help",), spells=("sep",), words=("1",))
+        trim_to_budget(d, budget)
+        out.append(d)
+    return out
+
+
 def catch_family(seed, n, maxlen=2, budget=1500):
     """optional/many/some arguments with `catch` (C06: the one documented exception): typed and environment values"""
     rnd = random.Random(seed)
@@ -590,7 +607,7 @@ def alt_tie_family(seed, n, maxlen=3, budget=3000):
     return out
 
 
-def group_fb_family(seed, n, maxlen=3, budget=3000):
+def group_fb_family(seed, n, maxlen=3, budget=3000, with_gdflt=False):
     """a group of items with a default for the whole group (`construct!(a, b).fallback_with(..)`): the default stands in
     only when none of its items was typed - a partly typed group is an error, never silently replaced"""
     rnd = random.Random(seed)
@@ -605,7 +622,8 @@ def group_fb_family(seed, n, maxlen=3, budget=3000):
         else:
             br = branch(ar("k", "one", "str", "--key"), ar("vs", "some", "int", "--val"))
         g = altf("g0", ["fallback_with", "fallback"][(i // 3) % 2], br)
-        others = [sw("o1", "-v")] if i % 2 == 0 else []
+        g["gdflt"] = with_gdflt and i % 2 == 1
+        others = [sw("o1", "-v")] if i % 2 == 0 else ([ar("o1", "one", "int", "-a")] if with_gdflt else [])
         tail = [NOTAIL, postail(pos("p0", "many")), postail(pos("p0", "opt"))][(i // 2) % 3]
         fields = others + [g] if i % 4 < 2 else [g] + others
         d = mkdef(f"grpfb{seed}_{i}", level(fields, tail), maxlen=maxlen, extras=rnd.choice([("unk",), ("dd",), ()]),
